@@ -59,7 +59,7 @@ func runC16(e *env) {
 		"QUERY directives with repeated / distinct / never-compared placeholders, names containing table names as substrings, single and grouped type declarations, comments on neighbouring structs, guard values; " +
 		"one evaluation = one module: the constraint section of the SQL script and the custom query functions of the CRUD file against the model; non-trivial = module with at least 2 directives"
 	e.m.Extra = map[string]interface{}{"mismatch_means": "model"}
-	specs := corpusComments()
+	specs := append(corpusComments(), repoFixtures("repo-sql-models")...)
 	n := 14
 	if e.thorough() {
 		n = 250
